@@ -4,50 +4,11 @@ run against the final quick-tier checks) and the sub-agent's meta.txt, and print
 DESIGN.md section 9.5.  usage: seedmeta.py <log>..."""
 import json, os, re, sys
 
+sys.path.insert(0, os.path.dirname(os.path.abspath(__file__)))
+
 # seeded changes the checks did not catch when first run against them - or, for the last round,
 # that reading the check showed it could not catch - and what was added
-STRENGTHENED = {
-    "C05-store-pseudo-carry": "C05 `far` harness (element indices up to 2^18: every lui/addi carry case of name[i])",
-    "C11-icache-uses-dcache-policy": "cache configuration plumbing harness `config` (C09/C11)",
-    "C16-memory-table-touches-replacement-state": "C16 `small` harness (real-dict memory, memory-table getter on real keys, cache snapshot)",
-    "C17-memory-table-unsorted": "C17 memory harness writes in ascending, descending and rotated order",
-    "C09-lhu-display-read-counted": "one-instruction cached programs for every load/store class (`prog1-*`)",
-    "C13-string-terminator-through-cache": "C13 reload texts with `.string` declarations and caches",
-    "C16-toy-svg-getter-mutates-shared-table": "snapshot of every module/class-level mutable table of the repository (symx/globalsnap.py)",
-    "C11-load-skips-icache-reset": "C11 `reload` harness: reload after a partial run, instruction cache compared with a fresh one",
-    "C08-stale-decode-during-ecall-drain": "producer / ecall / consumer sandwiches always in the quick tier",
-    "C07-silent-byte-read-adds-penalty": "C07 `penalty` harness (both caches, symbolic penalties, per-step cycle delta)",
-    "C05-half-preload-through-cache": "C05 layouts loaded into simulations with a data cache and read back through it",
-    "C07-x0-write-hides-older-producer": "producer / filler / consumer triples (the full interlock window) always in the quick tier",
-    "C09-sets-share-replacement-state": "reference post-state: untouched sets keep their replacement state",
-    "C16-cache-set-repr-memo": "C16 differential twin: inspected run vs a run on which no inspection function was ever called",
-    "C01-lhu-result-left-16-bit": "concrete twin of the register container's cell-type claim (symbolic counterexample was unconfirmable before)",
-    "C03-sh-bypasses-cache-in-five-stage": "cached program pairs: a store of every width onto a block made resident by the preceding access; memory compared as the program sees it",
-    "C05-string-content-quote-strip": "string declaration whose content starts and ends with a quote character",
-    "C17-table-memo-survives-reset": "C17 memory harness continues through reset / reload and the next write",
-    "C10-fill-prefers-empty-way": "C10 `fill` harness: which block a fill displaces (CacheSet inside the memory system, 2 and 4 ways)",
-    "C14-fault-message-text-from-wrong-latch": "C14 `message` harness (error-message clause; before, only C15 caught it)",
-    "C19-toy-int-base0": "C19 `numbers` harness: operand / data spellings with leading zeros (before, only C15's regex lemma caught it)",
-    "C12-sb-passes-signed-byte": "C12 `prog` jobs: state relation at the end of cached programs in both modes; single-cycle cached memory compared with the uncached run",
-    "C02-sh-default-bypasses-cache-five-stage": "C02 `prog_cached` jobs: both modes with a data cache",
-    "C04-instruction-memory-not-cleared-on-write": "C04 `reparse` jobs: parser API into a state that already holds a longer program",
-    "C16-svg-directives-object-reused": "C16 `text` harness: assembled sequences with CSR accesses, fresh never-inspected twin after every step",
-    # rounds 5-7 (third session)
-    "C10-setskip-redundant-touch": "deep histories from a reset cache against an executable reference cache (C09/C10/C03/C12 `deep`)",
-    "C18-write-wrap-once-per-access": "C18 configuration with a symbolic first valid address (0 = class default)",
-    "C17-toy-pc-sdec-fixedint": "C17 TOY pc over all 12-bit values; concrete twin uses the symbolic claim labels (the counterexample was found but could not be confirmed)",
-    "C06-decode-cache-survives-load": "C06 `reuse` harness (second program on an object that already ran one); hard per-job wall limit (the changed code never returned from run())",
-    "C16-wordwise-repr-memo-by-accesses": "C16 direct-mapped single-block cache configurations with a print-string ecall (uncounted reads that evict / write back)",
-    "C01-jalr-target-not-wrapped-single": "C01 claim pc-exact-where-an-instruction-can-be (the check compared pc modulo 2^32 only)",
-    "C15-offset-errorstop-escapes": "C15 `corrupt` harness: every token of every line shape replaced by / prefixed with / followed by junk tokens",
-    "C17-memory-table-memo-partial-store": "C17 memory table after a store that fails half-way at the top of the address space",
-    "C06-instruction-count-in-step": "C06 half-cycle twin and step-after-halt accounting claims (before, only C20 caught it)",
-    "C14-toy-listing-memo": "C14 `toy_listing` harness: the TOY listing re-assembles to the current memory word after every step of self-modifying programs",
-    "C20-table-memo-cycle-marker": "C20 drivers with the front end's queries issued between the two halves",
-    "C11-block-fill-stops-at-first-hole": "C11 fetch/reset histories over sparse instruction memories (added after reading the sub-agent's report, before the first run of the check against it)",
-    "C12-reset-invalidate-keeps-dirty-ghost": "reset operation inside the deep data-cache histories (added after reading the sub-agent's report, before the first run of the check against it)",
-    "C13-is-done-latched": "C13 reload harness with front-end queries (and no-op step/run) between loads and a run to completion afterwards",
-}
+from seedmeta_notes import STRENGTHENED  # noqa
 
 logs = "".join(open(f).read() for f in sys.argv[1:] if os.path.exists(f))
 blocks = re.split(r"^== ", logs, flags=re.M)[1:]
